@@ -17,6 +17,7 @@
     Independent.lean  pevalR_sound, independent_sem (diagonal extraction + body + sum)
     Reshape.lean  allIdx_ravel, reshape_self, reshapeS_sem_partial (the arg.shape == shape shortcut)
     Aggregates.lean  reductionWith_sem (any aggregate), reduceAxesWith_scalar, reductionWith_scalar_sem, aggAny_single
+    NamedAgg.lean reduceNamedWith_sem, ReplInv, replInv_max/min, mean_unrelated, var_unrelated, reduceNamedWith_absent, sum_not_replInv
     Total.lean    peval_total_core, core_complete_and_sound (typing commutes with evaluation)
   This file: non-vacuity examples.
 -/
@@ -24,6 +25,7 @@ import FunsorVerif.Props.C01.Total
 import FunsorVerif.Props.C01.Einsum
 import FunsorVerif.Props.C01.Reshape
 import FunsorVerif.Props.C01.Aggregates
+import FunsorVerif.Props.C01.NamedAgg
 namespace FV.Props.C01
 open FV FV.C01
 
